@@ -14,12 +14,12 @@ from fractions import Fraction
 from vlib.coqlit import cnat, cz, cbool, clist, copt, cpair, cstr, cq, cjv
 
 ID = "SRC"
-COQ_PROPS = ["Props/SRC.v", "Props/SRCfilter.v", "Props/SRClookup.v", "Props/SRCvalid.v", "Props/SRCalg.v", "Props/SRCstate.v", "Props/SRCsubset.v"]
+COQ_PROPS = ["Props/SRC.v", "Props/SRCfilter.v", "Props/SRClookup.v", "Props/SRCvalid.v", "Props/SRCalg.v", "Props/SRCstate.v", "Props/SRCsubset.v", "Props/SRCsample.v", "Props/SRCgetsubset.v", "Props/SRCinsert.v"]
 THEOREMS = ["SRC_is_constant", "SRC_is_repeating", "SRC_class_names", "SRC_valid_classes", "SRC_class_valid", "SRC_multiplicity",
             "SRC_multiplicity_foreign", "SRC_const_period", "SRC_n_slices", "SRC_key_regex_filter", "SRC_make_key_regex_filter",
             "SRC_meta_valid", "SRC_get_meta", "SRC_getitem", "SRC_valid_classes_dyn", "SRC_multiplicity_dyn", "SRC_check_valid",
             "SRC_global_slice_subset", "SRC_changed_class", "SRC_change_class", "SRC_simplify", "SRC_to_content_holds",
-            "SRC_copy_slice_step", "SRC_copy_slice"]
+            "SRC_copy_slice_step", "SRC_copy_slice", "SRC_copy_sample_step", "SRC_copy_sample", "SRC_get_subset_content", "SRC_get_subset", "SRC_insert_slice", "SRC_insert_non_slice", "SRC_insert_sample"]
 TABLES = ["t_src_ext", "t_src_filter", "t_src_lookup", "t_src_valid", "t_src_state", "t_classes", "t_ext_tol", "t_content"]
 ALLOWED_AXIOMS = []
 TRUSTED_BASE = ["tools/tables/py2coq.py (+ t_src_ext.py, t_src_filter.py): typed statement translator Python -> Gallina, "
@@ -699,7 +699,8 @@ class State:
     SHARD = 150
     RULE = ("real DcmMetaExtension objects (make_empty on 3-5 D shapes with extents 1..3, every slice dim or none) holding 1-3 keys in random "
             "classes (valid for the shape or stale) with value lists that are constant / constant per period / repeating / arbitrary, of the "
-            "right or a wrong length; `_simplify(key)` and `_change_class(key, new_class)` for present and absent keys: the returned value and the "
+            "right or a wrong length; `_simplify(key)`, `_change_class(key, new_class)` and `_insert_slice(key, other)` / `_insert_non_slice(key, other)` / `_insert_sample(key, other, base)` / `_insert(dim, other)` (other sometimes with another slice normal) (other: same rank, partly different extents, "
+            "overlapping keys) for present and absent keys: the returned value and the "
             "WHOLE content dictionary afterwards (key order included) vs the state-passing translation; non-trivial = the content changed")
 
     @staticmethod
@@ -711,29 +712,8 @@ class State:
             sh = [rng.choice([1, 2, 2, 3]) for _ in range(nd)]
             sd = rng.choice([None, 0, 1, 2, 2, 2])
             ns = None if sd is None else sh[sd]
-            keys = []
-            for key in rng.sample(['a', 'b', 'c'], rng.choice([1, 2, 3])):
-                cl = rng.choice([c_ for c_ in PYCLS if _class_ok(sh, c_)] * 4 + PYCLS)
-                m = _ref_mult(sh, ns, cl).get('nat')
-                if tuple(cl) == ('global', 'const'):
-                    vals = rng.choice([5, None, 'x', [1, 2]])
-                else:
-                    ln = m if (m is not None and rng.random() < 0.9) else rng.randrange(0, 7)
-                    style = rng.randrange(5)
-                    if style == 0:
-                        vals = [7] * ln
-                    elif style == 1:
-                        p = rng.choice([1, 2, 3])
-                        vals = [i // p for i in range(ln)]
-                    elif style == 2:
-                        p = rng.choice([1, 2, 3])
-                        vals = [i % p for i in range(ln)]
-                    elif style == 3:
-                        vals = [None] * ln
-                    else:
-                        vals = [rng.randrange(3) for _ in range(ln)]
-                keys.append([key, list(cl), vals])
-            f = rng.choice(['simplify', 'simplify', 'change', 'subset', 'subset', 'subset'])
+            keys = State._gen_keys(rng, sh, ns, rng.sample(['a', 'b', 'c'], rng.choice([1, 2, 3])))
+            f = rng.choice(['simplify', 'simplify', 'change', 'subset', 'subset', 'subset', 'insslice', 'insslice', 'insslice', 'insnon', 'inssample', 'inssample', 'insert', 'insert', 'insert', 'fromseq', 'fromseq', 'fromseq'])
             c = {'kind': f, 'f': f, 'shape': sh, 'sd': sd, 'keys': keys, 'key': rng.choice([k_[0] for k_ in keys] * 5 + ['zz'])}
             if f == 'change':
                 c['new'] = list(rng.choice(PYCLS))
@@ -741,8 +721,76 @@ class State:
                 dim = rng.choice(list(range(nd)) * 3 + [nd, 5])
                 c['dim'] = dim
                 c['idx'] = rng.randrange(sh[dim]) if dim < nd and rng.random() < 0.9 else rng.randrange(0, 4)
+            if f == 'fromseq':
+                # 2-3 inputs of one shape that is singular (or missing) along dim, each with its own keys; sometimes an unfit input
+                dim = rng.choice([0, 1, 2, 3, 3, 4, 4] + ([sd] * 3 if sd is not None else []) + [5])
+                base = list(sh)
+                if dim < len(base) and rng.random() < 0.9:
+                    base[dim] = 1
+                elif dim == len(base) - 1 and rng.random() < 0.5:
+                    base = base[:-1] if len(base) > 3 else base
+                ins = []
+                for i_ in range(rng.choice([1, 2, 2, 3])):
+                    ish = list(base) if rng.random() < 0.9 else [rng.choice([1, 2, 3]) for _ in base]
+                    ins.append({'shape': ish, 'keys': State._gen_keys(rng, ish, None if sd is None else ish[sd],
+                                                                      rng.sample(['a', 'b', 'c'], rng.choice([1, 2, 3]))),
+                                'rot': rng.random() < 0.15})
+                    if i_ and rng.random() < 0.6:         # often the keys (and classes) of the first input
+                        import copy
+                        ins[-1]['keys'] = copy.deepcopy(ins[0]['keys'])
+                        for k_ in ins[-1]['keys']:
+                            if rng.random() < 0.5:
+                                k_[2] = State._gen_vals(rng, ish, None if sd is None else ish[sd], k_[1])
+                c.update(dim=dim, inputs=ins, slice_dim=rng.choice([None, None, sd, 0, 1, 2]))
+            if f in ('insslice', 'insnon', 'inssample', 'insert'):
+                if f == 'insert':
+                    c['dim'] = rng.choice([0, 1, 2, 3, 3, 4, 4, 5] + ([sd] * 4 if sd is not None else []))
+                    c['orot'] = rng.random() < 0.3          # other has another slice normal: its per-slice meta data is not used
+                if f == 'inssample':
+                    c['base'] = rng.choice(['time', 'vector'])
+                # the instance whose key is inserted: same rank and slice dim, extents partly different, the same keys (same or
+                # another class) and sometimes others
+                osh = [x_ if rng.random() < 0.7 else rng.choice([1, 2, 3]) for x_ in sh]
+                ons = None if sd is None else osh[sd]
+                names = [k_[0] for k_ in keys if rng.random() < 0.85] + (['d'] if rng.random() < 0.2 else [])
+                okeys = State._gen_keys(rng, osh, ons, names)
+                for ok_ in okeys:        # often the class the key has in self
+                    mine = [k_ for k_ in keys if k_[0] == ok_[0]]
+                    if mine and rng.random() < 0.6:
+                        ok_[1] = list(mine[0][1])
+                        ok_[2] = State._gen_vals(rng, osh, ons, ok_[1])
+                    if mine and rng.random() < 0.3:
+                        ok_[2] = mine[0][2]
+                c['oshape'], c['okeys'] = osh, okeys
             out.append(c)
         return out
+
+    @staticmethod
+    def _gen_vals(rng, sh, ns, cl):
+        m = _ref_mult(sh, ns, cl).get('nat')
+        if tuple(cl) == ('global', 'const'):
+            return rng.choice([5, None, 'x', [1, 2]])
+        ln = m if (m is not None and rng.random() < 0.9) else rng.randrange(0, 7)
+        style = rng.randrange(5)
+        if style == 0:
+            return [7] * ln
+        if style == 1:
+            p = rng.choice([1, 2, 3])
+            return [i // p for i in range(ln)]
+        if style == 2:
+            p = rng.choice([1, 2, 3])
+            return [i % p for i in range(ln)]
+        if style == 3:
+            return [None] * ln
+        return [rng.randrange(3) for _ in range(ln)]
+
+    @staticmethod
+    def _gen_keys(rng, sh, ns, names):
+        keys = []
+        for key in names:
+            cl = rng.choice([c_ for c_ in PYCLS if _class_ok(sh, c_)] * 4 + PYCLS)
+            keys.append([key, list(cl), State._gen_vals(rng, sh, ns, cl)])
+        return keys
 
     @staticmethod
     def _build(case):
@@ -756,10 +804,58 @@ class State:
         return ext
 
     @staticmethod
+    def _token(normal):
+        """a slice normal as a token: the test data uses rows of two affines (the identity and a cyclic permutation), so a row is
+        identified by the position of its 1 - equal tokens exactly when np.allclose holds"""
+        return int(max(range(len(normal)), key=lambda i_: normal[i_]))
+
+    @staticmethod
+    def _build_other(case):
+        import copy
+        ext = State._build({'shape': case['oshape'], 'sd': case['sd'], 'keys': copy.deepcopy(case['okeys'])})
+        if case.get('orot'):
+            import numpy as np
+            ext.affine = np.array([[0., 1., 0., 0.], [0., 0., 1., 0.], [1., 0., 0., 0.], [0., 0., 0., 1.]])
+        return ext
+
+    @staticmethod
     def run_impl(case):
         ext = State._build(case)
         before = _plain(ext._content)
         ns = ext.n_slices
+        if case['f'] == 'fromseq':
+            import numpy as np
+            from dcmstack.dcmmeta import DcmMetaExtension
+            rot = np.array([[0., 1., 0., 0.], [0., 0., 1., 0.], [1., 0., 0., 0.], [0., 0., 0., 1.]])
+            seq, ins = [], []
+            for i_ in case['inputs']:
+                e_ = State._build({'shape': i_['shape'], 'sd': case['sd'], 'keys': i_['keys']})
+                if i_['rot']:
+                    e_.affine = rot
+                seq.append(e_)
+            out = {'before': before, 'ns': None, 'empty': None, 'rnormal': None, 'ins': []}
+            for e_ in seq:
+                n_ = e_.slice_normal
+                out['ins'].append({'shape': [int(x) for x in e_.shape], 'sd': e_.slice_dim, 'ns': None if e_.n_slices is None else int(e_.n_slices),
+                                   'normal': None if n_ is None else State._token(n_), 'content': _plain(e_._content)})
+            try:       # what make_empty gives for the result (external to the translation)
+                osh = list(seq[0].shape)
+                while len(osh) <= case['dim']:
+                    osh.append(1)
+                osh[case['dim']] = len(seq)
+                sdim = case['slice_dim'] if case['slice_dim'] is not None else seq[0].slice_dim
+                r0 = DcmMetaExtension.make_empty(osh, seq[0].affine, None, sdim)
+                out['empty'] = _plain(r0._content)
+                n_ = r0.slice_normal
+                out['rnormal'] = None if n_ is None else State._token(n_)
+            except Exception:
+                pass
+            try:
+                r = DcmMetaExtension.from_sequence(seq, case['dim'], None, case['slice_dim'])
+                out['after'] = _plain(r._content)
+            except (ValueError, IndexError, KeyError, TypeError, ZeroDivisionError, AssertionError, AttributeError, UnboundLocalError) as e:
+                out['err'] = 'ECrash' if isinstance(e, UnboundLocalError) else ERR[type(e).__name__]
+            return out
         if case['f'] == 'subset':
             import numpy as np
             from dcmstack.dcmmeta import DcmMetaExtension
@@ -779,16 +875,38 @@ class State:
             except (ValueError, IndexError, KeyError, TypeError, ZeroDivisionError, AssertionError, AttributeError, UnboundLocalError) as e:
                 out['err'] = 'ECrash' if isinstance(e, UnboundLocalError) else ERR[type(e).__name__]
             return out
+        extra = {}
+        if case['f'] in ('insslice', 'insnon', 'inssample', 'insert'):
+            other = State._build_other(case)
+            obefore = _plain(other._content)
+            ons = other.n_slices
+            extra = {'obefore': obefore, 'ons': None if ons is None else int(ons)}
+            if case['f'] == 'insert':       # the slice normals as tokens: equal exactly when np.allclose holds
+                import numpy as np
+                a_, b_ = ext.slice_normal, other.slice_normal
+                extra['normal'] = None if a_ is None else 0
+                extra['onormal'] = None if b_ is None else (0 if (a_ is not None and np.allclose(a_, b_)) else 1)
         try:
             if case['f'] == 'simplify':
                 r = ext._simplify(case['key'])
                 res = {'bool': bool(r)}
+            elif case['f'] in ('insslice', 'insnon', 'inssample', 'insert'):
+                if case['f'] == 'insert':
+                    ext._insert(case['dim'], other)
+                elif case['f'] == 'insslice':
+                    ext._insert_slice(case['key'], other)
+                elif case['f'] == 'insnon':
+                    ext._insert_non_slice(case['key'], other)
+                else:
+                    ext._insert_sample(case['key'], other, case['base'])
+                res = {'unit': True, 'ochanged': _plain(other._content) != obefore}
             else:
                 ext._change_class(case['key'], tuple(case['new']))
                 res = {'unit': True}
-        except (ValueError, IndexError, KeyError, TypeError, ZeroDivisionError, AssertionError, AttributeError) as e:
-            return {'before': before, 'ns': None if ns is None else int(ns), 'err': ERR[type(e).__name__]}
-        res.update(before=before, ns=None if ns is None else int(ns), after=_plain(ext._content))
+        except (ValueError, IndexError, KeyError, TypeError, ZeroDivisionError, AssertionError, AttributeError, UnboundLocalError) as e:
+            return dict(extra, before=before, ns=None if ns is None else int(ns),
+                        err='ECrash' if isinstance(e, UnboundLocalError) else ERR[type(e).__name__])
+        res.update(extra, before=before, ns=None if ns is None else int(ns), after=_plain(ext._content))
         return res
 
     @staticmethod
@@ -797,14 +915,38 @@ class State:
             call = '(SrcEqStateCorr.CSimplify %s)' % cstr(case['key'])
         elif case['f'] == 'subset':
             call = '(SrcEqStateCorr.CSubset %s %s %s %s)' % (copt(case['sd'], cnat), cnat(case['dim']), cnat(case['idx']), copt(obs['empty'], cjv))
+        elif case['f'] in ('insslice', 'insnon'):
+            call = '(SrcEqStateCorr.%s %s %s %s %s %s)' % ('CInsertSlice' if case['f'] == 'insslice' else 'CInsertNonSlice',
+                                                           copt(case['sd'], cnat), cstr(case['key']),
+                                                           clist(cnat(x) for x in case['oshape']), copt(obs['ons'], cnat),
+                                                           cjv(obs['obefore']))
+        elif case['f'] == 'insert':
+            call = '(SrcEqStateCorr.CInsert %s %s %s %s %s %s %s)' % (copt(case['sd'], cnat), cnat(case['dim']), copt(obs['normal'], cnat),
+                                                                      copt(obs['onormal'], cnat),
+                                                                      clist(cnat(x) for x in case['oshape']), copt(obs['ons'], cnat),
+                                                                      cjv(obs['obefore']))
+        elif case['f'] == 'fromseq':
+            call = '(SrcEqStateCorr.CFromSeq %s %s %s %s %s)' % (
+                cnat(case['dim']), copt(case['slice_dim'], cnat),
+                clist('(%s, %s, %s, %s, %s)' % (clist(cnat(x) for x in i_['shape']), copt(i_['sd'], cnat), copt(i_['ns'], cnat),
+                                                copt(i_['normal'], cnat), cjv(i_['content'])) for i_ in obs['ins']),
+                copt(obs['empty'], cjv), copt(obs['rnormal'], cnat))
+        elif case['f'] == 'inssample':
+            call = '(SrcEqStateCorr.CInsertSample %s %s %s %s %s %s)' % (copt(case['sd'], cnat), cstr(case['key']), cstr(case['base']),
+                                                                         clist(cnat(x) for x in case['oshape']), copt(obs['ons'], cnat),
+                                                                         cjv(obs['obefore']))
         else:
             call = '(SrcEqStateCorr.CChange %s %s)' % (cstr(case['key']), _cname(case['new']))
-        if 'err' in obs:
+        if 'err' in obs and case['f'] in ('insert', 'fromseq'):
+            o = 'SrcEqStateCorr.OErrU'
+        elif 'err' in obs:
             o = '(SrcEqStateCorr.OErr %s)' % obs['err']
         elif 'content' in obs:
             o = '(SrcEqStateCorr.OContent %s)' % cjv(obs['after'])
         elif 'bool' in obs:
             o = '(SrcEqStateCorr.OBoolSt %s %s)' % (cbool(obs['bool']), cjv(obs['after']))
+        elif case['f'] in ('insert', 'fromseq'):
+            o = '(SrcEqStateCorr.OUnitStU %s)' % cjv(obs['after'])
         else:
             o = '(SrcEqStateCorr.OUnitSt %s)' % cjv(obs['after'])
         return 'SrcEqStateCorr.mk_case %s %s %s %s %s' % (clist(cnat(x) for x in case['shape']), copt(obs['ns'], cnat),
@@ -812,6 +954,8 @@ class State:
 
     @staticmethod
     def oracle(case, obs):
+        if obs.get('ochanged'):
+            return 'the instance that is only read was changed'
         return None
 
     @staticmethod
